@@ -20,6 +20,7 @@
  *   STEP STRUCTURE (what a model has to mirror).  A step of thread t is: the effect of t's posted
  *   operation, then t's thread-local code up to (not including) its next wrapped call.
  *     start     first step of a thread (thread 0: the main function given to ds_run)
+ *     created   only with cfg.create_return_point: second step of a successful pthread_create (the call returns)
  *     create    pthread_create; new thread gets the next ordinal, its first posted op is `start`
  *               (an injected failure returns the error code and creates nothing; aux = error)
  *     join      enabled iff the target has performed `exit`; obj = target ordinal
@@ -112,6 +113,7 @@ enum ds_kind {
     DS_ATOMIC,
     DS_YIELD,
     DS_SPURIOUS_EV,
+    DS_CREATE_RET,
     DS_KIND_COUNT
 };
 
@@ -125,6 +127,8 @@ struct ds_config {
     unsigned quantum;           /* default policy, 0 = 16 */
     uint64_t start_ns;          /* virtual time at start, 0 = 1 000 000 000 */
     uint64_t clock_tick_ns;     /* added by every clock_gettime, 0 = off */
+    int create_return_point;    /* 1: a successful pthread_create is two steps, `create` then `created` (return to
+                                   the caller), so that the new thread can run before the creator continues; 0 = off */
     long max_steps;             /* watchdog: run aborted as livelock after this many steps, 0 = 1 000 000 */
 };
 
@@ -145,7 +149,9 @@ int ds_run(void (*main_fn)(void *), void *arg);
 int ds_deadlocked(void);    /* last run ended in deadlock */
 int ds_livelocked(void);    /* last run hit max_steps */
 int ds_diverged(void);      /* an explicit schedule entry named a thread that was not enabled */
-int ds_misuse_count(void);  /* unlock by non-owner, join of self / of a detached or joined thread, wait without the mutex */
+int ds_misuse_count(void);  /* unlock by non-owner, join of self / of an unknown id / of a detached or joined thread, wait without the mutex */
+enum { DS_TS_EXITED = 1, DS_TS_JOINED = 2, DS_TS_DETACHED = 4 };
+int ds_thread_state(int ord); /* DS_TS_* bits of thread `ord` after/during a run, -1 if no such thread */
 int ds_thread_count(void);  /* threads created in the last run, including thread 0 */
 int ds_self_ordinal(void);  /* ordinal of the calling thread, -1 if not a scheduled thread */
 
